@@ -185,6 +185,7 @@ def run(chk):
     validated = 0
     outcomes = set()
     samples = []
+    failing = []
     for names, steps, final, r in vlib._pool(vlib.NCPU, list(enumerate(hs)), hist_job):
         states.add(final)
         transitions += len(names)
@@ -206,6 +207,7 @@ def run(chk):
         if r.get("panicked"):
             chk.violation("server-panicked:" + "/".join(names), {"history": names, "steps": steps, "final": final, "panic": r.get("panic")}, f"the server panicked (twice) during history {names}: {r.get('panic')}")
         elif inc != frd:
+            failing.append({"key": "diagnostics-differ:" + "/".join(names), "published": "nothing" if inc in ([], None) else "other", "fresh": len(frd or [])})
             chk.violation("diagnostics-differ:" + "/".join(names), {"base": BASE, "history": names, "steps": steps, "final": final, "incremental": inc, "fresh": frd},
                           f"history {names}: after didSave the server last published {json.dumps(inc)[:200]}, a fresh server publishes {json.dumps(frd)[:200]}")
         if len(samples) < 3 and len(names) >= 2:
@@ -213,7 +215,7 @@ def run(chk):
     chk.coverage.update({
         "states": len(states), "transitions": transitions, "traces_validated_against_impl": validated,
         "samples": samples or [{"history": hs[0][0]}], "histories": len(hs), "distinct_final_texts": len(finals), "distinct_diagnostic_sets": len(outcomes),
-        "notification_alphabet": list(EDITS) + [f"[{a}+{b}]" for a, b in PAIRS], "exhaustive": True,
+        "diverging_histories": failing, "notification_alphabet": list(EDITS) + [f"[{a}+{b}]" for a, b in PAIRS], "exhaustive": True,
         "explanation": "states = distinct document texts reached; transitions = didChange notifications sent to a real server; each history runs in a fresh server process (didOpen base, the notifications, didSave) "
                        "and is compared with a fresh server's didOpen diagnostics for the final text; traces_validated = histories after which the server's own copy of the text equals the client's",
     })
